@@ -169,42 +169,93 @@ package kvql
 //@   ensures[C01] defined: (err == nil) == (lok(e, kv) && rok(e, kv))
 //@   ensures kind: err == nil ==> isstr(ret)
 //
-// Not yet verified (thin assumed contracts: frame and result kind only): regular expressions,
-// IN and BETWEEN.
+// Not yet verified (thin assumed contract: frame only): regular expressions.
 //@ func (e *BinaryOpExpr) execRegexpMatch(kv KVPair, ctx *ExecuteCtx) (ret bool, err error)
 //@   trusted thin contract (frame only), body not yet verified
 //@   requires[C05] c5: coherent(ctx, val(kv.Key), val(kv.Value)) && wfCtx(ctx) && wfRefs()
 //@   ensures[C05] coherent: coherent(ctx, val(kv.Key), val(kv.Value))
 //@   requires wfBin(e)
 //@   assigns ctx.Hit, mapof(ctx.FieldCaches)
+// The static type of a call is looked up in the function registry (shared, read only).
+//@ func (e *FunctionCallExpr) ReturnType() (t Type)
+//@   trusted thin contract (registry lookup; names the interface's rtype), body not verified
+//@   requires e != nil
+//@   assigns nothing
+//@   ensures t == rtype(e)
+//
+// A call evaluated through its static type (x IN f(...)): the interface contract of Execute, assumed
+// (the memo field FunctionCallExpr.Result that constant calls fill is outside the model).
+//@ func (e *FunctionCallExpr) Execute(kv KVPair, ctx *ExecuteCtx) (result any, err error)
+//@   trusted thin contract (the interface contract of Expression.Execute), body not verified here
+//@   requires e != nil
+//@   requires[C05] coherent: coherent(ctx, val(kv.Key), val(kv.Value)) && wfCtx(ctx) && wfRefs()
+//@   assigns ctx.Hit, mapof(ctx.FieldCaches)
+//@   ensures[C05] coherent: coherent(ctx, val(kv.Key), val(kv.Value))
+//@   ensures evalok: (err == nil) == evalok(e, val(kv.Key), val(kv.Value))
+//@   ensures evalv: err == nil ==> result == evalv(e, val(kv.Key), val(kv.Value))
+//
+// x IN (a, b, ...): some element equals x (README: "in list followed by in operator"); texts by
+// their bytes, numbers numerically (integers here). inTextN / inIntN: among the first n elements.
+//@ define inTextN(e *BinaryOpExpr, kv KVPair, n Int) Bool = exists j Int :: 0 <= j && j < n && textOf(evalv(as(e.Right, *ListExpr).List[j], val(kv.Key), val(kv.Value))) == textOf(lv(e, kv))
+//@ define inIntN(e *BinaryOpExpr, kv KVPair, n Int) Bool = exists j Int :: 0 <= j && j < n && intof(evalv(as(e.Right, *ListExpr).List[j], val(kv.Key), val(kv.Value))) == intof(lv(e, kv))
+//@ define nitems(e *BinaryOpExpr) Int = len(as(e.Right, *ListExpr).List)
 //@ func (e *BinaryOpExpr) execStringIn(kv KVPair, ctx *ExecuteCtx) (ret any, err error)
-//@   trusted thin contract (frame and result kind only), body not yet verified
+//@   props C01 C05
 //@   requires[C05] c5: coherent(ctx, val(kv.Key), val(kv.Value)) && wfCtx(ctx) && wfRefs()
 //@   ensures[C05] coherent: coherent(ctx, val(kv.Key), val(kv.Value))
-//@   requires wfBin(e)
+//@   requires wfBetween(e)
 //@   assigns ctx.Hit, mapof(ctx.FieldCaches)
-//@   ensures err == nil ==> isbool(ret)
+//@   ensures kind: err == nil ==> isbool(ret)
+//@   ensures[C01] defined: err == nil && is(e.Right, *ListExpr) ==> lok(e, kv) && (nitems(e) > 0 ==> isText(lv(e, kv)))
+//@   ensures[C01] member: err == nil && is(e.Right, *ListExpr) ==> ret == ABool(inTextN(e, kv, nitems(e)))
+//@   loop 0 (expr)
+//@     invariant[C05] coherent: coherent(ctx, val(kv.Key), val(kv.Value))
+//@     invariant[C01] sofar: lok(e, kv) && left == lv(e, kv) && rlist == e.Right && is(e.Right, *ListExpr) && (rangeindex >= 0 ==> isText(lv(e, kv))) && !inTextN(e, kv, rangeindex + 1)
+//@     use rangeindex + 1
+//@   loop 1 (val)
+//@     invariant true
 //@ func (e *BinaryOpExpr) execNumberIn(kv KVPair, ctx *ExecuteCtx) (ret any, err error)
-//@   trusted thin contract (frame and result kind only), body not yet verified
+//@   props C01 C05
 //@   requires[C05] c5: coherent(ctx, val(kv.Key), val(kv.Value)) && wfCtx(ctx) && wfRefs()
 //@   ensures[C05] coherent: coherent(ctx, val(kv.Key), val(kv.Value))
-//@   requires wfBin(e)
+//@   requires wfBetween(e)
 //@   assigns ctx.Hit, mapof(ctx.FieldCaches)
-//@   ensures err == nil ==> isbool(ret)
+//@   ensures kind: err == nil ==> isbool(ret)
+//@   ensures[C01] defined: err == nil && is(e.Right, *ListExpr) ==> lok(e, kv) && (nitems(e) > 0 ==> isNum(lv(e, kv)))
+//@   ensures[C01] member: err == nil && is(e.Right, *ListExpr) && isInt(lv(e, kv)) && (forall j Int :: 0 <= j && j < nitems(e) ==> isInt(evalv(as(e.Right, *ListExpr).List[j], val(kv.Key), val(kv.Value)))) ==> ret == ABool(inIntN(e, kv, nitems(e)))
+//@   loop 0 (expr)
+//@     invariant[C05] coherent: coherent(ctx, val(kv.Key), val(kv.Value))
+//@     invariant[C01] sofar: lok(e, kv) && left == lv(e, kv) && rlist == e.Right && is(e.Right, *ListExpr) && (rangeindex >= 0 ==> isNum(lv(e, kv))) && (isInt(lv(e, kv)) && (forall j Int :: 0 <= j && j < nitems(e) ==> isInt(evalv(as(e.Right, *ListExpr).List[j], val(kv.Key), val(kv.Value)))) ==> !inIntN(e, kv, rangeindex + 1))
+//@     use rangeindex + 1
+//@   loop 1 (val)
+//@     invariant true
+// BETWEEN lo AND hi (README: greater or equal than lo and less or equal than hi; texts byte-wise,
+// numbers numerically). Evaluation refuses bounds in the wrong order (lo > hi) - that refusal is
+// part of the definedness condition below; equal bounds are accepted (D26 repaired).
+//@ define blo(e *BinaryOpExpr) Expression = as(e.Right, *ListExpr).List[0]
+//@ define bhi(e *BinaryOpExpr) Expression = as(e.Right, *ListExpr).List[1]
+//@ define bshape(e *BinaryOpExpr) Bool = is(e.Right, *ListExpr) && len(as(e.Right, *ListExpr).List) == 2
+//@ define wfBetween(e *BinaryOpExpr) Bool = wfBin(e) && (is(e.Right, *ListExpr) ==> (forall i Int :: 0 <= i && i < len(as(e.Right, *ListExpr).List) ==> as(e.Right, *ListExpr).List[i] != nil))
+//@ define lov(e *BinaryOpExpr, kv KVPair) Any = evalv(blo(e), val(kv.Key), val(kv.Value))
+//@ define hiv(e *BinaryOpExpr, kv KVPair) Any = evalv(bhi(e), val(kv.Key), val(kv.Value))
 //@ func (e *BinaryOpExpr) execStringBetween(kv KVPair, ctx *ExecuteCtx) (ret any, err error)
-//@   trusted thin contract (frame and result kind only), body not yet verified
+//@   props C01 C05
 //@   requires[C05] c5: coherent(ctx, val(kv.Key), val(kv.Value)) && wfCtx(ctx) && wfRefs()
 //@   ensures[C05] coherent: coherent(ctx, val(kv.Key), val(kv.Value))
-//@   requires wfBin(e)
+//@   requires wfBetween(e)
 //@   assigns ctx.Hit, mapof(ctx.FieldCaches)
-//@   ensures err == nil ==> isbool(ret)
+//@   ensures[C01] defined: err == nil ==> lok(e, kv) && bshape(e) && evalok(blo(e), val(kv.Key), val(kv.Value)) && evalok(bhi(e), val(kv.Key), val(kv.Value)) && isText(lv(e, kv)) && isText(lov(e, kv)) && isText(hiv(e, kv)) && cmp(textOf(lov(e, kv)), textOf(hiv(e, kv))) <= 0
+//@   ensures[C01] value: err == nil ==> ret == ABool(cmp(textOf(lov(e, kv)), textOf(lv(e, kv))) <= 0 && cmp(textOf(lv(e, kv)), textOf(hiv(e, kv))) <= 0)
+//@   ensures[C01] total: lok(e, kv) && bshape(e) && rtype(blo(e)) == TSTR && rtype(bhi(e)) == TSTR && evalok(blo(e), val(kv.Key), val(kv.Value)) && evalok(bhi(e), val(kv.Key), val(kv.Value)) && isText(lv(e, kv)) && isText(lov(e, kv)) && isText(hiv(e, kv)) && cmp(textOf(lov(e, kv)), textOf(hiv(e, kv))) <= 0 ==> err == nil
 //@ func (e *BinaryOpExpr) execNumberBetween(kv KVPair, ctx *ExecuteCtx) (ret any, err error)
-//@   trusted thin contract (frame and result kind only), body not yet verified
+//@   props C01 C05
 //@   requires[C05] c5: coherent(ctx, val(kv.Key), val(kv.Value)) && wfCtx(ctx) && wfRefs()
 //@   ensures[C05] coherent: coherent(ctx, val(kv.Key), val(kv.Value))
-//@   requires wfBin(e)
+//@   requires wfBetween(e)
 //@   assigns ctx.Hit, mapof(ctx.FieldCaches)
-//@   ensures err == nil ==> isbool(ret)
+//@   ensures[C01] defined: err == nil ==> lok(e, kv) && bshape(e) && evalok(blo(e), val(kv.Key), val(kv.Value)) && evalok(bhi(e), val(kv.Key), val(kv.Value)) && isNum(lv(e, kv)) && isNum(lov(e, kv)) && isNum(hiv(e, kv))
+//@   ensures[C01] ints: err == nil && isInt(lv(e, kv)) && isInt(lov(e, kv)) && isInt(hiv(e, kv)) ==> intof(lov(e, kv)) <= intof(hiv(e, kv)) && ret == ABool(intof(lov(e, kv)) <= intof(lv(e, kv)) && intof(lv(e, kv)) <= intof(hiv(e, kv)))
+//@   ensures[C01] inttotal: lok(e, kv) && bshape(e) && rtype(blo(e)) == TNUMBER && rtype(bhi(e)) == TNUMBER && evalok(blo(e), val(kv.Key), val(kv.Value)) && evalok(bhi(e), val(kv.Key), val(kv.Value)) && isInt(lv(e, kv)) && isInt(lov(e, kv)) && isInt(hiv(e, kv)) && intof(lov(e, kv)) <= intof(hiv(e, kv)) ==> err == nil
 //
 // Leaves and negation.
 //@ axiom ev_field(x Expression, k B, v B): is(x, *FieldExpr) ==> (as(x, *FieldExpr).Field == KeyKW ==> evalok(x, k, v) && isbytes(evalv(x, k, v)) && textOf(evalv(x, k, v)) == k) && (as(x, *FieldExpr).Field == ValueKW ==> evalok(x, k, v) && isbytes(evalv(x, k, v)) && textOf(evalv(x, k, v)) == v) && (as(x, *FieldExpr).Field != KeyKW && as(x, *FieldExpr).Field != ValueKW ==> !evalok(x, k, v))
@@ -250,8 +301,11 @@ package kvql
 //@ define docTextOrder(e *BinaryOpExpr, kv KVPair, ok Bool, r Any) Bool = (ok == (lok(e, kv) && rok(e, kv) && isText(lv(e, kv)) && isText(rv(e, kv)))) && (ok ==> r == ABool(cmpHolds(opSym(e.Op), cmp(textOf(lv(e, kv)), textOf(rv(e, kv))))))
 //@ define docNumOrder(e *BinaryOpExpr, kv KVPair, ok Bool, r Any) Bool = (ok == (lok(e, kv) && rok(e, kv) && isNum(lv(e, kv)) && isNum(rv(e, kv)))) && (ok && isInt(lv(e, kv)) && isInt(rv(e, kv)) ==> r == ABool(intHolds(opSym(e.Op), intof(lv(e, kv)), intof(rv(e, kv))))) && (ok && !(isInt(lv(e, kv)) && isInt(rv(e, kv))) ==> r == ABool(fltHolds(opSym(e.Op), numOf(lv(e, kv)), numOf(rv(e, kv)))))
 //@ define docMath(e *BinaryOpExpr, kv KVPair, ok Bool, r Any) Bool = (ok == (lok(e, kv) && rok(e, kv) && isNum(lv(e, kv)) && isNum(rv(e, kv)) && !divByZero(opChar(e.Op), rv(e, kv)))) && (ok && isInt(lv(e, kv)) && isInt(rv(e, kv)) ==> r == AInt(intOp(opChar(e.Op), intof(lv(e, kv)), intof(rv(e, kv))))) && (ok && !(isInt(lv(e, kv)) && isInt(rv(e, kv))) ==> r == AFlt(fltOp(opChar(e.Op), numOf(lv(e, kv)), numOf(rv(e, kv)))))
+//@ define docTextBetween(e *BinaryOpExpr, kv KVPair, ok Bool, r Any) Bool = (ok ==> lok(e, kv) && bshape(e) && evalok(blo(e), val(kv.Key), val(kv.Value)) && evalok(bhi(e), val(kv.Key), val(kv.Value)) && isText(lv(e, kv)) && isText(lov(e, kv)) && isText(hiv(e, kv)) && cmp(textOf(lov(e, kv)), textOf(hiv(e, kv))) <= 0 && r == ABool(cmp(textOf(lov(e, kv)), textOf(lv(e, kv))) <= 0 && cmp(textOf(lv(e, kv)), textOf(hiv(e, kv))) <= 0)) && (lok(e, kv) && bshape(e) && rtype(blo(e)) == TSTR && rtype(bhi(e)) == TSTR && evalok(blo(e), val(kv.Key), val(kv.Value)) && evalok(bhi(e), val(kv.Key), val(kv.Value)) && isText(lv(e, kv)) && isText(lov(e, kv)) && isText(hiv(e, kv)) && cmp(textOf(lov(e, kv)), textOf(hiv(e, kv))) <= 0 ==> ok)
+//@ define docNumBetween(e *BinaryOpExpr, kv KVPair, ok Bool, r Any) Bool = (ok ==> lok(e, kv) && bshape(e) && evalok(blo(e), val(kv.Key), val(kv.Value)) && evalok(bhi(e), val(kv.Key), val(kv.Value)) && isNum(lv(e, kv)) && isNum(lov(e, kv)) && isNum(hiv(e, kv))) && (ok && isInt(lv(e, kv)) && isInt(lov(e, kv)) && isInt(hiv(e, kv)) ==> intof(lov(e, kv)) <= intof(hiv(e, kv)) && r == ABool(intof(lov(e, kv)) <= intof(lv(e, kv)) && intof(lv(e, kv)) <= intof(hiv(e, kv)))) && (lok(e, kv) && bshape(e) && rtype(blo(e)) == TNUMBER && rtype(bhi(e)) == TNUMBER && evalok(blo(e), val(kv.Key), val(kv.Value)) && evalok(bhi(e), val(kv.Key), val(kv.Value)) && isInt(lv(e, kv)) && isInt(lov(e, kv)) && isInt(hiv(e, kv)) && intof(lov(e, kv)) <= intof(hiv(e, kv)) ==> ok)
+//@ define docTextIn(e *BinaryOpExpr, kv KVPair, ok Bool, r Any) Bool = ok ==> lok(e, kv) && (nitems(e) > 0 ==> isText(lv(e, kv))) && r == ABool(inTextN(e, kv, nitems(e)))
 //@ define isOrderOp(op Operator) Bool = op == Gt || op == Gte || op == Lt || op == Lte
-//@ define docBin(e *BinaryOpExpr, kv KVPair, ok Bool, r Any) Bool = (e.Op == Eq ==> docEq(e, kv, ok, r)) && (e.Op == NotEq ==> docNe(e, kv, ok, r)) && (e.Op == PrefixMatch ==> docPrefix(e, kv, ok, r)) && (e.Op == And || e.Op == KWAnd ==> docAnd(e, kv, ok, r)) && (e.Op == Or || e.Op == KWOr ==> docOr(e, kv, ok, r)) && (isOrderOp(e.Op) && rtype(e.Left) == TSTR ==> docTextOrder(e, kv, ok, r)) && (isOrderOp(e.Op) && rtype(e.Left) != TSTR ==> docNumOrder(e, kv, ok, r)) && (e.Op == Sub || e.Op == Mul || e.Op == Div || (e.Op == Add && rtype(e.Left) != TSTR) ==> docMath(e, kv, ok, r))
+//@ define docBin(e *BinaryOpExpr, kv KVPair, ok Bool, r Any) Bool = (e.Op == Eq ==> docEq(e, kv, ok, r)) && (e.Op == NotEq ==> docNe(e, kv, ok, r)) && (e.Op == PrefixMatch ==> docPrefix(e, kv, ok, r)) && (e.Op == And || e.Op == KWAnd ==> docAnd(e, kv, ok, r)) && (e.Op == Or || e.Op == KWOr ==> docOr(e, kv, ok, r)) && (isOrderOp(e.Op) && rtype(e.Left) == TSTR ==> docTextOrder(e, kv, ok, r)) && (isOrderOp(e.Op) && rtype(e.Left) != TSTR ==> docNumOrder(e, kv, ok, r)) && (e.Op == Sub || e.Op == Mul || e.Op == Div || (e.Op == Add && rtype(e.Left) != TSTR) ==> docMath(e, kv, ok, r)) && (e.Op == Between && rtype(e.Left) == TSTR ==> docTextBetween(e, kv, ok, r)) && (e.Op == Between && rtype(e.Left) != TSTR ==> docNumBetween(e, kv, ok, r)) && (e.Op == In && rtype(e.Left) == TSTR && is(e.Right, *ListExpr) ==> docTextIn(e, kv, ok, r))
 //
 // What the row evaluator was proved to compute, read through the definitional interface clauses
 // (result == evalv, err == nil iff evalok): the meaning of evalok / evalv on binary nodes. The
